@@ -195,7 +195,10 @@ def run(ctx: Ctx):
               ' pairs every statistic with the same-named statistic of the operand,'
               ' also through positional helper calls (R-C01-5 name pairing) — a'
               ' crossed pair (labels <-> predictions) leaves counts and shapes'
-              ' right and every derived rate wrong', c01.r5, aggmodel(ctx), min_instances=10)
+              ' right and every derived rate wrong; and merge combines every accumulated'
+              ' statistic driven by the OPERAND\'s content, not by what the receiver happens'
+              ' to hold — a fresh receiver must not drop what is merged into it (R-C01-1)',
+              _c01_shared, aggmodel(ctx), min_instances=25)
 
 def r14(ctx: Ctx, st):
   rule = 'R-C07-14'
@@ -245,6 +248,12 @@ def r14(ctx: Ctx, st):
                ' pos_to_neg and pos_to_neg(base, model) differs from neg_to_pos(model, base)', node=c)
   ctx.floor(rule, 6)
 
+
+
+def _c01_shared(sub, m):
+  from mlmverif.props import c01
+  sub.guard(c01.r5, m)
+  sub.guard(c01.r1, m)
 
 
 def _c11_shared(sub, m):
